@@ -1,12 +1,14 @@
 #!/usr/bin/env python3
 """mkmutant.py <name> <file-relative-to-/repo> <old> <new>  -> writes /verif/mutants/<name>.patch (git diff), leaves /repo clean."""
 import subprocess, sys
+import os
 name, rel, old, new = sys.argv[1:5]
-p = f"/repo/{rel}"
+REPO = os.environ.get("MUT_REPO", "/repo")  # a scratch worktree can be used instead of /repo
+p = f"{REPO}/{rel}"
 s = open(p).read()
 assert s.count(old) == 1, f"pattern occurs {s.count(old)} times"
 open(p, "w").write(s.replace(old, new))
-diff = subprocess.run(["git", "-C", "/repo", "diff"], capture_output=True, text=True).stdout
+diff = subprocess.run(["git", "-C", REPO, "diff"], capture_output=True, text=True).stdout
 open(f"/verif/mutants/{name}.patch", "w").write(diff)
-subprocess.run(["git", "-C", "/repo", "checkout", "--", "."], check=True)
+subprocess.run(["git", "-C", REPO, "checkout", "--", "."], check=True)
 print("wrote", name)
